@@ -463,3 +463,48 @@ func ValueParamType(m string) (reflect.Type, bool) {
 	}
 	return nil, false
 }
+
+// ---- pool probe ----
+
+type probeLines struct{ lines []string }
+
+func (p *probeLines) Write(b []byte) (int, error) { p.lines = append(p.lines, string(b)); return len(b), nil }
+
+// UserArr is a LogArrayMarshaler that is not a *zerolog.Array (Event.Array then borrows a pooled scratch array).
+type UserArr struct{ N int }
+
+func (u UserArr) MarshalZerologArray(a *zerolog.Array) { a.Int(u.N).Str("ua") }
+
+// PoolProbe first sends events through the paths that borrow pooled scratch objects (a user array marshaler, an
+// error rendering itself as an object, Fields with such values), then opens two events, two dicts and two arrays
+// at the same time and finalises them. It returns "" if every line is what its own chain builds, else a
+// description: an object pooled twice, or pooled while still in use, makes two of them the same object.
+func PoolProbe() string {
+	pw := &probeLines{}
+	lg := zerolog.New(pw)
+	lg.Log().Array("ua", UserArr{1}).Err(ErrObj{"eo"}).Fields(map[string]interface{}{"o": ErrObj{"fo"}}).Array("a", zerolog.Arr().Err(ErrObj{"ae"}).Object(ObjV{})).Msg("warm")
+	e1 := lg.Log().Str("a", "1")
+	e2 := lg.Log().Str("b", "2")
+	d1 := zerolog.Dict().Str("x", "1")
+	d2 := zerolog.Dict().Str("y", "2")
+	a1 := zerolog.Arr().Int(1)
+	a2 := zerolog.Arr().Int(2)
+	a1.Str("one")
+	a2.Str("two")
+	e1.Dict("d", d1).Array("r", a1).Msg("one")
+	e2.Dict("d", d2).Array("r", a2).Msg("two")
+	want := []string{
+		`{"ua":[1,"ua"],"error":{"msg":"eo"},"o":{"msg":"fo"},"a":[{"msg":"ae"},{}],"message":"warm"}` + "\n",
+		`{"a":"1","d":{"x":"1"},"r":[1,"one"],"message":"one"}` + "\n",
+		`{"b":"2","d":{"y":"2"},"r":[2,"two"],"message":"two"}` + "\n",
+	}
+	if len(pw.lines) != len(want) {
+		return fmt.Sprintf("%d lines written, want %d: %q", len(pw.lines), len(want), pw.lines)
+	}
+	for i := range want {
+		if pw.lines[i] != want[i] {
+			return fmt.Sprintf("line %d is %q, its own chain builds %q", i, pw.lines[i], want[i])
+		}
+	}
+	return ""
+}
